@@ -208,7 +208,33 @@ CORPUS = [{'K': 'a\\'}, {'K': 'a\\', 'L': 'b'}, {'K': '50%2C'}, {'K': 'a\\,b'}, 
           {'K': ['', '']}, {'K': 'a,b'}, {'K': "it's"}, {'K': ['x']}, {'K': '\\'}, {'K': ';'}, {'K': ':'}, {'K': '\\:'}]
 
 
+def check_fresh_results(ctx):
+    """every parse returns a parameter map of its own: editing one result must not show up in a later one"""
+    from icalendar.parser import Contentline, Parameters
+    texts = ['', 'K=v', 'K=a,b;L="x;y"', 'ROLE=CHAIR']
+    for t in texts:
+        ctx.evaluated(('fresh', t))
+        p1 = Parameters.from_ical(t)
+        snap = got_of(p1)
+        p1['X-EDITED'] = 'yes'
+        for v in list(p1.values()):
+            if isinstance(v, list):
+                v.append('extra')
+        p2 = Parameters.from_ical(t)
+        if got_of(p2) != snap:
+            ctx.violation('shared-state', {'params': {'text': t}}, f'Parameters.from_ical({t!r}) returned {got_of(p2)!r} after an earlier result was edited; expected {snap!r}')
+    for a, b in (('X-PLAIN:value', 'UID:1'), ('SUMMARY;LANGUAGE=en:x', 'COMMENT;LANGUAGE=en:y'), ('A:1', 'A:1')):
+        ctx.evaluated(('fresh-line', a, b))
+        pa = Contentline(a).parts()[1]
+        snap_b = got_of(Contentline(b).parts()[1])
+        pa['X-EDITED'] = 'yes'
+        pb = Contentline(b).parts()[1]
+        if got_of(pb) != snap_b:
+            ctx.violation('shared-state', {'params': {'line': b}}, f'parts() of {b!r} returned {got_of(pb)!r} after the parameters of {a!r} were edited; expected {snap_b!r}')
+
+
 def oracle(ctx):
+    check_fresh_results(ctx)
     for d in CORPUS:
         ctx.evaluated(('c', repr(d)))
         check_map(ctx, d)
